@@ -23,9 +23,9 @@ use refmodel::tval::{Gen, GenCfg, TT, TVal, directed_values};
 use serde_json::{Value, json};
 
 use crate::c01::{vals_from_json, vals_to_json};
-use crate::codecs::{ALL_BK, Reader, WP, flatten_linked, read_seq, write_seq};
-use crate::interp::{Ops, from_ttype};
-use crate::oracle::diff;
+use pcodec::codecs::{ALL_BK, Reader, WP, flatten_linked, read_seq, write_seq};
+use pcodec::interp::{Ops, from_ttype};
+use pcodec::oracle::diff;
 
 pub struct C03;
 
@@ -597,7 +597,7 @@ fn check_value_light(v: &TVal, frag: &mut Frag) {
     let vals = std::slice::from_ref(v);
     for wp in CONF_WP {
         let mut ops = Ops::default();
-        match catch(|| write_seq(wp, crate::codecs::BK::BytesMut, vals, &mut ops)) {
+        match catch(|| write_seq(wp, pcodec::codecs::BK::BytesMut, vals, &mut ops)) {
             Ok(Ok(w)) => match decode(wp.wire(), v.tt(), &w.bytes) {
                 Ok((got, n)) if got == *v && n == w.bytes.len() => {}
                 other => viol(frag, &format!("{}|pilota->ref|i16-table", wp.name()), format!("{} -> {:?}", v.render(80), other.map(|x| x.0.render(80))), json!({"vals": vals_to_json(vals)})),
